@@ -674,5 +674,137 @@ theorem filter_apply (old : List Str) (env : List KeyValue) (hwf : WF old)
   have := hq x hx
   rw [hxe, hqe] at this; cases this
 
+/-! ### the result is again a well-formed environment -/
+
+theorem keys_insert (m : AList Str Str) (k v : Str) :
+    (AList.insert m k v).map (·.1) = if k ∈ m.map (·.1) then m.map (·.1) else m.map (·.1) ++ [k] := by
+  induction m with
+  | nil => simp [AList.insert]
+  | cons x r ih =>
+    obtain ⟨k', v'⟩ := x
+    by_cases hk : k' = k
+    · subst hk; simp [AList.insert]
+    · have hk2 : ¬ k = k' := fun h => hk h.symm
+      simp only [AList.insert, hk, if_false, List.map_cons, ih, List.mem_cons, hk2, false_or]
+      by_cases hm : k ∈ r.map (·.1) <;> simp [hm]
+
+theorem keys_insert_nodup {m : AList Str Str} (k v : Str) (h : (m.map (·.1)).Nodup) :
+    ((AList.insert m k v).map (·.1)).Nodup := by
+  rw [keys_insert]
+  by_cases hm : k ∈ m.map (·.1)
+  · simp only [hm, if_true]; exact h
+  · simp only [hm, if_false]
+    rw [List.nodup_append]
+    refine ⟨h, by simp, ?_⟩
+    intro a ha b hb
+    simp only [List.mem_singleton] at hb
+    rw [hb]; intro hab; exact hm (hab ▸ ha)
+
+theorem keep_fst {md : AList Str KeyValue} (hmod : ModOK md) {e : Str} {p : Str × Str}
+    (h : keep md e = some p) : p.1 = nameOf e ∧ '=' ∉ p.1 := by
+  unfold keep at h
+  cases hs : splitEq e with
+  | none => simp [hs] at h
+  | some q =>
+    obtain ⟨n, v⟩ := q
+    have hne := (splitEq_some hs).2
+    simp only [hs] at h
+    rw [nameOf_of_split hs]
+    cases hl : AList.lookup md n with
+    | none => rw [hl] at h; simp at h; rw [← h]; exact ⟨rfl, hne⟩
+    | some m =>
+      rw [hl] at h
+      cases hmk : isMarked m.key with
+      | true => simp [hmk] at h
+      | false =>
+        simp [hmk] at h
+        have := hmod n m hl; rw [strip_of_not_marked hmk] at this
+        rw [← h]; simp only; rw [this]; exact ⟨rfl, hne⟩
+
+theorem keys_filterMap_keep_sublist (old : List Str) (md : AList Str KeyValue) (hmod : ModOK md) :
+    List.Sublist ((old.filterMap (keep md)).map (·.1)) (old.map nameOf) := by
+  induction old with
+  | nil => exact List.Sublist.slnil
+  | cons e r ih =>
+    simp only [List.filterMap_cons, List.map_cons]
+    cases hk : keep md e with
+    | none => exact List.Sublist.cons _ ih
+    | some p =>
+      simp only [List.map_cons]
+      rw [(keep_fst hmod hk).1]
+      exact List.Sublist.cons_cons _ ih
+
+/-- invariant of a generator state: names distinct, non-empty and without `'='` -/
+def GoodAcc (acc : AList Str Str) : Prop :=
+  (acc.map (·.1)).Nodup ∧ (∀ x ∈ acc, x.1 ≠ []) ∧ NoEq acc
+
+theorem goodAcc_phase2 (md : AList Str KeyValue) (acc : AList Str Str) (env : List KeyValue)
+    (hacc : GoodAcc acc) (henv : ∀ e ∈ env, '=' ∉ stripMarker e.key) : GoodAcc (phase2 md acc env) := by
+  refine ⟨?_, ?_, noEq_phase2 md acc env hacc.2.2 henv⟩
+  · rw [phase2_eq]
+    have h1 := hacc.1
+    clear hacc henv
+    induction env generalizing acc with
+    | nil => exact h1
+    | cons e r ih =>
+      simp only [List.foldl_cons]
+      apply ih
+      by_cases hc : (!isMarked e.key && AList.contains md e.key && !(e.key == [])) = true
+      · rw [if_pos hc]; exact keys_insert_nodup _ _ h1
+      · rw [if_neg hc]; exact h1
+  · rw [phase2_eq]
+    have h2 := hacc.2.1
+    clear hacc henv
+    induction env generalizing acc with
+    | nil => exact h2
+    | cons e r ih =>
+      simp only [List.foldl_cons]
+      apply ih
+      by_cases hc : (!isMarked e.key && AList.contains md e.key && !(e.key == [])) = true
+      · rw [if_pos hc]
+        have hne : e.key ≠ [] := by
+          simp only [Bool.and_eq_true, Bool.not_eq_true', beq_eq_false_iff_ne] at hc; exact hc.2
+        intro x hx
+        rcases mem_insert hx with hx | hx
+        · exact h2 x hx
+        · rw [hx]; exact hne
+      · rw [if_neg hc]; exact h2
+
+theorem wf_render {acc : AList Str Str} (h : GoodAcc acc) : WF (render acc) := by
+  obtain ⟨hnd, hne, hnoeq⟩ := h
+  constructor
+  · intro e he
+    unfold render at he
+    rcases List.mem_map.mp he with ⟨x, hx, hxe⟩
+    exact ⟨x.1, x.2, by rw [← hxe]; exact splitEq_render x.1 x.2 (hnoeq x hx), hne x hx⟩
+  · have : (render acc).map nameOf = acc.map (·.1) := by
+      unfold render
+      rw [List.map_map]
+      apply List.map_congr_left
+      intro x hx
+      exact nameOf_render x.1 x.2 (hnoeq x hx)
+    rw [this]; exact hnd
+
+/-- `AdjustEnv` maps a well-formed environment to a well-formed environment: entries
+    `NAME=value`, every name non-empty and occurring ONCE. -/
+theorem wf_apply (old : List Str) (env : List KeyValue) (hwf : WF old)
+    (hkeys : ∀ e ∈ env, '=' ∉ stripMarker e.key) : WF (apply old env) := by
+  by_cases hne : env = []
+  · subst hne; simpa [apply, applyWith] using hwf
+  rw [apply_eq old env hne]
+  apply wf_render
+  have hmod := modOK env
+  have hsnd := phase1_snd old (mod env) [] hwf (by simp) hmod
+  simp only [List.nil_append] at hsnd
+  unfold finalAcc; simp only
+  rw [hsnd]
+  apply goodAcc_phase2 _ _ _ _ hkeys
+  refine ⟨(keys_filterMap_keep_sublist old _ hmod).nodup hwf.nodup, ?_, noEq_filterMap_keep old _ hmod⟩
+  intro x hx
+  rcases List.mem_filterMap.mp hx with ⟨e, he, hke⟩
+  rw [(keep_fst hmod hke).1]
+  obtain ⟨n, v, hs, hn⟩ := hwf.split e he
+  rw [nameOf_of_split hs]; exact hn
+
 end Env
 end Nri.Generate
